@@ -310,6 +310,10 @@ class HTTPConnection(_HTTPConnection):
     def is_connected(self) -> bool:
         if self.sock is None:
             return False
+        # Bytes that a TLS layer has already decrypted are not seen by select()/poll().
+        pending = getattr(self.sock, "pending", None)
+        if pending is not None and pending():
+            return False
         return not wait_for_read(self.sock, timeout=0.0)
 
     @property
